@@ -206,9 +206,17 @@ def _re_apply(kind):
         interp.trusted_used.add("re (python regular expressions on concrete strings)")
         if m is None:
             return None
-        from pyvc.values import Opaque
-        return Opaque("re.Match", attrs={"$m": m}, methods={"group": lambda interp2, *a: m.group(*a)})
+        return _match_value(m)
     return f
+
+
+def _match_value(m):
+    """a concrete re.Match as a verifier value: group / start / end / span and the searched string"""
+    from pyvc.values import Opaque
+    return Opaque("re.Match", attrs={"$m": m, "string": m.string, "pos": m.pos, "endpos": m.endpos},
+                  methods={"group": lambda interp2, *a: m.group(*a), "start": lambda interp2, *a: m.start(*a),
+                           "end": lambda interp2, *a: m.end(*a), "span": lambda interp2, *a: m.span(*a),
+                           "groups": lambda interp2, *a: m.groups(*a)})
 
 
 def _re_sub(interp, args, kwargs):
@@ -222,7 +230,7 @@ def _re_sub(interp, args, kwargs):
         return rx.sub(repl, s)
 
     def _call(m):
-        mo = Opaque("re.Match", attrs={"$m": m}, methods={"group": lambda interp2, *a: m.group(*a)})
+        mo = _match_value(m)
         out = interp.call(repl, [mo], {})
         if not isinstance(out, str):
             raise PyExc("TypeError", "expected str instance from the replacement function")
